@@ -7,11 +7,11 @@ from .create import rest_sig
 from .edit import observe
 
 VALS = {
-    "A": ["http://t1.example/announce", "http://t2.example/announce"],
-    "W": ["http://w1.example/files/", "ftp://w2.example/x"],
-    "H": ["http://h1.example/seed"],
-    "S": "SRC-tag",
-    "C": "a comment with spaces",
+    "A": ["http://t1.example/announce_1", "http://t2.example/an-nounce_2"],
+    "W": ["http://w1.example/my_files/", "ftp://w2.example/x_y-z"],
+    "H": ["http://h1.example/seed_a-b"],
+    "S": "SRC_tag-1",
+    "C": "a comment with spaces, under_scores and dash-es",
 }
 
 
@@ -160,6 +160,16 @@ def run_cli(case):
                     "L": ["--piece-length", str(case["plen_arg"])], "V": ["--meta-version", str(v)],
                     "O": ["-o", requested], "G": ["--align"], "PATH": [root], "PROG": ["--prog", "0"]}
                 # "implicit": no command word at all (the front end then assumes create)
+                if case.get("argform") == "eq":
+                    # long options in their --flag=value spelling (argparse lets a list-valued flag take exactly one
+                    # value that way, so lists of two keep the blank-separated form)
+                    if len(ann) == 1:
+                        groups["A"] = ["--%s=%s" % (("announce", "tracker")[case["id"] % 2], ann[0])]
+                    groups.update({
+                        "H": ["--http-seed=" + VALS["H"][0]],
+                        "S": ["--source=" + VALS["S"]], "C": ["--comment=" + VALS["C"]],
+                        "L": ["--piece-length=%s" % case["plen_arg"]], "V": ["--meta-version=%d" % v],
+                        "O": ["--out=" + requested], "PROG": ["--prog=0"]})
                 argv = list(case.get("pre", [])) + ([] if case.get("spelling") == "implicit" else [case.get("spelling", "create")])
                 for g in case["shape"]:
                     argv += groups[g]
